@@ -935,6 +935,8 @@ package ircserver
 //@ pred memberRepr(m *pb.Snapshot_Channel_Modes, a *[2]bool) = m != nil && a != nil && (forall b int :: 0 <= b && b < 2 ==> (a[b] <==> (exists j int :: 0 <= j && j < len(m.Mode) && m.Mode[j][0] == b)))
 //@ pred chanNicksRepr(p *pb.Snapshot_Channel, c *channel) = c.nicks != nil && (forall n lcNick :: n in c.nicks <==> (exists name string :: name in p.Nicks && NickToLower(name) == n)) && (forall name string :: name in p.Nicks ==> NickToLower(name) in c.nicks && memberRepr(p.Nicks[name], c.nicks[NickToLower(name)]))
 //@ pred chanKey(p *pb.Snapshot_Channel) = ChanToLower(p.Name)
+//@ pred chanShapeOK(p *pb.Snapshot_Channel) = p != nil && allocated(p) && allocated(p.TopicTime) && allocated(p.Modes) && allocated(p.Bans) && allocated(p.Nicks) && (forall j int :: 0 <= j && j < len(p.Modes) ==> len(p.Modes[j]) > 0 && p.Modes[j][0] < 122) && (forall j int :: 0 <= j && j < len(p.Bans) ==> p.Bans[j] != nil && allocated(p.Bans[j]) && reok(p.Bans[j].Regexp)) && (forall name string :: name in p.Nicks ==> p.Nicks[name] != nil && allocated(p.Nicks[name]) && allocated(p.Nicks[name].Mode) && (forall j int :: 0 <= j && j < len(p.Nicks[name].Mode) ==> len(p.Nicks[name].Mode[j]) > 0 && p.Nicks[name].Mode[j][0] < 2)) && (forall x string, y string :: x in p.Nicks && y in p.Nicks && x != y ==> NickToLower(x) != NickToLower(y))
+//@ pred chanEntryOK(p *pb.Snapshot_Channel, i *IRCServer) = chanShapeOK(p) && chanKey(p) in i.channels && chanRepr(p, i.channels[chanKey(p)]) && chanNicksRepr(p, i.channels[chanKey(p)])
 //@ pred wfSnapChannels(S *pb.Snapshot) = (forall k int :: 0 <= k && k < len(S.Channels) ==> S.Channels[k] != nil && allocated(S.Channels[k]) && (forall j int :: 0 <= j && j < len(S.Channels[k].Modes) ==> len(S.Channels[k].Modes[j]) > 0 && S.Channels[k].Modes[j][0] < 122) && (forall j int :: 0 <= j && j < len(S.Channels[k].Bans) ==> S.Channels[k].Bans[j] != nil && reok(S.Channels[k].Bans[j].Regexp)) && (forall name string :: name in S.Channels[k].Nicks ==> S.Channels[k].Nicks[name] != nil && (forall j int :: 0 <= j && j < len(S.Channels[k].Nicks[name].Mode) ==> len(S.Channels[k].Nicks[name].Mode[j]) > 0 && S.Channels[k].Nicks[name].Mode[j][0] < 2)) && (forall x string, y string :: x in S.Channels[k].Nicks && y in S.Channels[k].Nicks && x != y ==> NickToLower(x) != NickToLower(y))) && (forall a int, b int {S.Channels[a], S.Channels[b]} :: 0 <= a && a < b && b < len(S.Channels) ==> chanKey(S.Channels[a]) != chanKey(S.Channels[b]))
 // What Marshal guarantees about the shape of a snapshot (asserted there, assumed after decoding).
 //@ pred wfSnapSessions(S *pb.Snapshot) = (forall k int :: 0 <= k && k < len(S.Sessions) ==> S.Sessions[k] != nil && allocated(S.Sessions[k]) && S.Sessions[k].Id != nil && S.Sessions[k].IrcPrefix != nil && (forall j int :: 0 <= j && j < len(S.Sessions[k].Modes) ==> len(S.Sessions[k].Modes[j]) > 0 && S.Sessions[k].Modes[j][0] < 122)) && (forall a int, b int {S.Sessions[a], S.Sessions[b]} :: 0 <= a && a < b && b < len(S.Sessions) ==> snapId(S.Sessions[a]) != snapId(S.Sessions[b]))
@@ -955,6 +957,8 @@ package ircserver
 //@   requires only-sessnicks-owner: wfOwner(i) && wfNicks(i) && wfAlive(i)
 // keys of the nickname holds are lowered nicknames (inserted as NickToLower(...) only)
 //@   requires only-holds-canonical: forall n lcNick :: n in i.svsholds ==> NickToLower(n) == n
+// the channel table is well-formed (chanShape: keys are the lowered names, member maps and ban lists exist), member keys are lowered nicknames
+//@   requires only-chanw-shape: chanShape(i) && (forall ch lcChan, n lcNick :: ch in i.channels && n in i.channels[ch].nicks ==> i.channels[ch].nicks[n] != nil && NickToLower(n) == n) && (forall ch lcChan, m int :: ch in i.channels && 0 <= m && m < 65 ==> !i.channels[ch].modes[m])
 //@   requires legacy-created: forall x robust.Id :: x in i.sessions ==> i.sessions[x].Created > 0 && !i.sessions[x].LastNonPing.IsZero()
 // user modes are letters: nothing below 'A' is ever set (cmdMode only sets parsed mode letters)
 //@   requires modes-letters: forall x robust.Id, m int :: x in i.sessions && 0 <= m && m < 65 ==> !i.sessions[x].modes[m]
@@ -984,35 +988,61 @@ package ircserver
 //@     invariant sess-l16: forall a int, b int {sessions[a], sessions[b]} :: 0 <= a && a < b && b < len(sessions) ==> snapId(sessions[a]) != snapId(sessions[b])
 // the loops after the session loop leave the session list alone
 //@   loop range i.channels
+//@     invariant chanw: forall k int :: 0 <= k && k < len(channels) ==> chanEntryOK(channels[k], i) && seen(chanKey(channels[k]))
+//@     invariant chanw-distinct: forall a int, b int {channels[a], channels[b]} :: 0 <= a && a < b && b < len(channels) ==> chanKey(channels[a]) != chanKey(channels[b])
 //@     invariant sess-l17: forall k int :: 0 <= k && k < len(sessions) ==> sessEntryOK(sessions[k], i)
 //@     invariant sess-l18: forall x robust.Id :: x in i.sessions ==> (exists k int :: 0 <= k && k < len(sessions) && snapId(sessions[k]) == x)
 //@     invariant sess-l19: forall a int, b int {sessions[a], sessions[b]} :: 0 <= a && a < b && b < len(sessions) ==> snapId(sessions[a]) != snapId(sessions[b])
 //@   loop range channel.nicks
+//@     invariant chanw: channel != nil && ChanToLower(channel.name) in i.channels && i.channels[ChanToLower(channel.name)] == channel && seen(ChanToLower(channel.name), "range i.channels") && (forall k int :: 0 <= k && k < len(channels) ==> chanEntryOK(channels[k], i) && seen(chanKey(channels[k]), "range i.channels") && chanKey(channels[k]) != ChanToLower(channel.name))
+//@     invariant chanw-distinct: forall a int, b int {channels[a], channels[b]} :: 0 <= a && a < b && b < len(channels) ==> chanKey(channels[a]) != chanKey(channels[b])
+//@     invariant chanw-nicks: nicks != nil && allocated(nicks) && (forall n lcNick :: seen(n) <==> n in nicks) && (forall n string :: n in nicks ==> n in channel.nicks && nicks[n] != nil && allocated(nicks[n]) && allocated(nicks[n].Mode) && memberRepr(nicks[n], channel.nicks[n]) && (forall j int :: 0 <= j && j < len(nicks[n].Mode) ==> len(nicks[n].Mode[j]) > 0 && nicks[n].Mode[j][0] < 2))
 //@     invariant sess-l20: forall k int :: 0 <= k && k < len(sessions) ==> sessEntryOK(sessions[k], i)
 //@     invariant sess-l21: forall x robust.Id :: x in i.sessions ==> (exists k int :: 0 <= k && k < len(sessions) && snapId(sessions[k]) == x)
 //@     invariant sess-l22: forall a int, b int {sessions[a], sessions[b]} :: 0 <= a && a < b && b < len(sessions) ==> snapId(sessions[a]) != snapId(sessions[b])
 //@   loop range channelNickModes
+//@     invariant chanw: channel != nil && ChanToLower(channel.name) in i.channels && i.channels[ChanToLower(channel.name)] == channel && seen(ChanToLower(channel.name), "range i.channels") && (forall k int :: 0 <= k && k < len(channels) ==> chanEntryOK(channels[k], i) && seen(chanKey(channels[k]), "range i.channels") && chanKey(channels[k]) != ChanToLower(channel.name))
+//@     invariant chanw-distinct: forall a int, b int {channels[a], channels[b]} :: 0 <= a && a < b && b < len(channels) ==> chanKey(channels[a]) != chanKey(channels[b])
+//@     invariant chanw-nicks: nickName in channel.nicks && channelNickModes == channel.nicks[nickName] && channelNickModes != nil && nicks != nil && allocated(nicks) && (forall n lcNick :: (seen(n, "range channel.nicks") && n != nickName) <==> n in nicks) && (forall n string :: n in nicks ==> n in channel.nicks && nicks[n] != nil && allocated(nicks[n]) && allocated(nicks[n].Mode) && memberRepr(nicks[n], channel.nicks[n]) && (forall j int :: 0 <= j && j < len(nicks[n].Mode) ==> len(nicks[n].Mode[j]) > 0 && nicks[n].Mode[j][0] < 2))
+//@     invariant chanw-member: 0 - 1 <= rangeindex && rangeindex < 2 && allocated(modes) && (forall j int :: 0 <= j && j < len(modes) ==> len(modes[j]) > 0 && 0 <= modes[j][0] && modes[j][0] <= rangeindex && channelNickModes[modes[j][0]])
+//@     invariant chanw-member2: forall b int :: 0 <= b && b <= rangeindex && channelNickModes[b] ==> (exists j int :: 0 <= j && j < len(modes) && modes[j][0] == b)
 //@     invariant sess-l23: forall k int :: 0 <= k && k < len(sessions) ==> sessEntryOK(sessions[k], i)
 //@     invariant sess-l24: forall x robust.Id :: x in i.sessions ==> (exists k int :: 0 <= k && k < len(sessions) && snapId(sessions[k]) == x)
 //@     invariant sess-l25: forall a int, b int {sessions[a], sessions[b]} :: 0 <= a && a < b && b < len(sessions) ==> snapId(sessions[a]) != snapId(sessions[b])
 //@   loop for mode < 'z' #1
+//@     invariant chanw: channel != nil && ChanToLower(channel.name) in i.channels && i.channels[ChanToLower(channel.name)] == channel && seen(ChanToLower(channel.name), "range i.channels") && (forall k int :: 0 <= k && k < len(channels) ==> chanEntryOK(channels[k], i) && seen(chanKey(channels[k]), "range i.channels") && chanKey(channels[k]) != ChanToLower(channel.name))
+//@     invariant chanw-distinct: forall a int, b int {channels[a], channels[b]} :: 0 <= a && a < b && b < len(channels) ==> chanKey(channels[a]) != chanKey(channels[b])
+//@     invariant chanw-nicks: nicks != nil && allocated(nicks) && (forall n lcNick :: n in channel.nicks <==> n in nicks) && (forall n string :: n in nicks ==> nicks[n] != nil && allocated(nicks[n]) && allocated(nicks[n].Mode) && memberRepr(nicks[n], channel.nicks[n]) && (forall j int :: 0 <= j && j < len(nicks[n].Mode) ==> len(nicks[n].Mode[j]) > 0 && nicks[n].Mode[j][0] < 2))
+//@     invariant chanw-modes: 65 <= mode && mode <= 122 && allocated(modes) && (forall j int :: 0 <= j && j < len(modes) ==> len(modes[j]) > 0 && 65 <= modes[j][0] && modes[j][0] < mode && channel.modes[modes[j][0]])
+//@     invariant chanw-modes2: forall m int :: 65 <= m && m < mode && channel.modes[m] ==> (exists j int :: 0 <= j && j < len(modes) && modes[j][0] == m)
 //@     invariant sess-l26: forall k int :: 0 <= k && k < len(sessions) ==> sessEntryOK(sessions[k], i)
 //@     invariant sess-l27: forall x robust.Id :: x in i.sessions ==> (exists k int :: 0 <= k && k < len(sessions) && snapId(sessions[k]) == x)
 //@     invariant sess-l28: forall a int, b int {sessions[a], sessions[b]} :: 0 <= a && a < b && b < len(sessions) ==> snapId(sessions[a]) != snapId(sessions[b])
 //@   loop range channel.bans
+//@     invariant chanw: channel != nil && ChanToLower(channel.name) in i.channels && i.channels[ChanToLower(channel.name)] == channel && seen(ChanToLower(channel.name), "range i.channels") && (forall k int :: 0 <= k && k < len(channels) ==> chanEntryOK(channels[k], i) && seen(chanKey(channels[k]), "range i.channels") && chanKey(channels[k]) != ChanToLower(channel.name))
+//@     invariant chanw-distinct: forall a int, b int {channels[a], channels[b]} :: 0 <= a && a < b && b < len(channels) ==> chanKey(channels[a]) != chanKey(channels[b])
+//@     invariant chanw-nicks: nicks != nil && allocated(nicks) && (forall n lcNick :: n in channel.nicks <==> n in nicks) && (forall n string :: n in nicks ==> nicks[n] != nil && allocated(nicks[n]) && allocated(nicks[n].Mode) && memberRepr(nicks[n], channel.nicks[n]) && (forall j int :: 0 <= j && j < len(nicks[n].Mode) ==> len(nicks[n].Mode[j]) > 0 && nicks[n].Mode[j][0] < 2))
+//@     invariant chanw-modes: allocated(modes) && (forall j int :: 0 <= j && j < len(modes) ==> len(modes[j]) > 0 && 65 <= modes[j][0] && modes[j][0] < 122 && channel.modes[modes[j][0]]) && (forall m int :: 65 <= m && m < 122 && channel.modes[m] ==> (exists j int :: 0 <= j && j < len(modes) && modes[j][0] == m))
+//@     invariant chanw-bans: 0 - 1 <= rangeindex && rangeindex < len(channel.bans) && len(bans) == len(channel.bans) && allocated(bans) && (forall k int :: 0 <= k && k <= rangeindex ==> bans[k] != nil && allocated(bans[k]) && bans[k].Pattern == channel.bans[k].pattern && bans[k].Regexp == channel.bans[k].re.String())
 //@     invariant sess-l29: forall k int :: 0 <= k && k < len(sessions) ==> sessEntryOK(sessions[k], i)
 //@     invariant sess-l30: forall x robust.Id :: x in i.sessions ==> (exists k int :: 0 <= k && k < len(sessions) && snapId(sessions[k]) == x)
 //@     invariant sess-l31: forall a int, b int {sessions[a], sessions[b]} :: 0 <= a && a < b && b < len(sessions) ==> snapId(sessions[a]) != snapId(sessions[b])
 //@   loop range i.svsholds
+//@     invariant chanw: forall k int :: 0 <= k && k < len(channels) ==> chanEntryOK(channels[k], i)
+//@     invariant chanw-distinct: forall a int, b int {channels[a], channels[b]} :: 0 <= a && a < b && b < len(channels) ==> chanKey(channels[a]) != chanKey(channels[b])
 //@     invariant holds: svsholds != nil && allocated(svsholds) && (forall n lcNick :: seen(n) <==> n in svsholds) && (forall n string :: n in svsholds ==> svsholds[n] != nil && allocated(svsholds[n]) && allocated(svsholds[n].Added) && n in i.svsholds && holdRepr(svsholds[n], i.svsholds[n]) && parseok(svsholds[n].Duration))
 //@     invariant sess-l32: forall k int :: 0 <= k && k < len(sessions) ==> sessEntryOK(sessions[k], i)
 //@     invariant sess-l33: forall x robust.Id :: x in i.sessions ==> (exists k int :: 0 <= k && k < len(sessions) && snapId(sessions[k]) == x)
 //@     invariant sess-l34: forall a int, b int {sessions[a], sessions[b]} :: 0 <= a && a < b && b < len(sessions) ==> snapId(sessions[a]) != snapId(sessions[b])
 //@   loop range i.Config.IRC.Operators
+//@     invariant chanw: forall k int :: 0 <= k && k < len(channels) ==> chanEntryOK(channels[k], i)
+//@     invariant chanw-distinct: forall a int, b int {channels[a], channels[b]} :: 0 <= a && a < b && b < len(channels) ==> chanKey(channels[a]) != chanKey(channels[b])
 //@     invariant sess-l35: forall k int :: 0 <= k && k < len(sessions) ==> sessEntryOK(sessions[k], i)
 //@     invariant sess-l36: forall x robust.Id :: x in i.sessions ==> (exists k int :: 0 <= k && k < len(sessions) && snapId(sessions[k]) == x)
 //@     invariant sess-l37: forall a int, b int {sessions[a], sessions[b]} :: 0 <= a && a < b && b < len(sessions) ==> snapId(sessions[a]) != snapId(sessions[b])
 //@   loop range i.Config.IRC.Services
+//@     invariant chanw: forall k int :: 0 <= k && k < len(channels) ==> chanEntryOK(channels[k], i)
+//@     invariant chanw-distinct: forall a int, b int {channels[a], channels[b]} :: 0 <= a && a < b && b < len(channels) ==> chanKey(channels[a]) != chanKey(channels[b])
 //@     invariant sess-l38: forall k int :: 0 <= k && k < len(sessions) ==> sessEntryOK(sessions[k], i)
 //@     invariant sess-l39: forall x robust.Id :: x in i.sessions ==> (exists k int :: 0 <= k && k < len(sessions) && snapId(sessions[k]) == x)
 //@     invariant sess-l40: forall a int, b int {sessions[a], sessions[b]} :: 0 <= a && a < b && b < len(sessions) ==> snapId(sessions[a]) != snapId(sessions[b])
@@ -1030,6 +1060,7 @@ package ircserver
 //@   assert@call proto.Marshal#0 : sess-sessions: wfSnapSessions(addrof(snapshot))
 //@   assert@call proto.Marshal#0 : sessnicks: wfSnapNicks(addrof(snapshot))
 //@   assert@call proto.Marshal#0 : sess-sessions-repr: forall k int :: 0 <= k && k < len(sessions) ==> sessEntryOK(sessions[k], i)
+//@   assert@call proto.Marshal#0 : chanw: sameslice(snapshot.Channels, channels) && (forall k int :: 0 <= k && k < len(channels) ==> chanEntryOK(channels[k], i)) && wfSnapChannels(addrof(snapshot))
 //@   assert@call proto.Marshal#0 : holds: snapshot.Svsholds == svsholds && holdsRepr(addrof(snapshot), i) && wfSnapHolds(addrof(snapshot))
 //@   assert@call proto.Marshal#0 : config: snapshot.Config == config && cfgRepr(config, addrof(i.Config)) && cfgTextOK(config)
 //@   assert@call proto.Marshal#0 : config-top: snapshot.LastProcessed != nil && snapshot.LastProcessed.Id == i.lastProcessed.Id && snapshot.LastProcessed.Reply == i.lastProcessed.Reply && snapshot.LastIncludedIndex == lastIncludedIndex
